@@ -59,7 +59,7 @@ def judgeClip (L : Lines) (A : Operand) (rhs : Tok) : String :=
     else if s.all (fun l => l.all fun v => inside c v) then "vertices-inside-crossing"
     else if ncross ≤ 4 then "cross-few" else "cross-many"
   let ext := extentOf s c
-  let scale := if ext < 1 / 1024 then "-tiny" else if ext > 32768 then "-huge" else ""
+  let scale := if ext < 1 / 8388608 then "-tiny30" else if ext < 1 / 1024 then "-tiny" else if ext > 32768 then "-huge" else ""
   let long := if s.any (fun l => decide (l.length > 1024)) then "-long" else ""
   let cls := s!"{lk}-{kindName A}-{cfg}{long}{scale}" ++ (if ok then "" else "-outside-quantifier")
   match rhs with
@@ -91,7 +91,7 @@ def judgeClip (L : Lines) (A : Operand) (rhs : Tok) : String :=
             let lw := (want.map pathLen).foldl (· + ·) 0
             let lg := (got.map pathLen).foldl (· + ·) 0
             if fabs (lw - lg) > 1e-9 * (lw + ratToFloat (extentOf s c)) then
-              s!"SPEC {cls} length-clause total-length want={lw} got={lg} pieces want={want.length} got={got.length}"
+              s!"SPEC {cls} length-clause total-length/extent want={lw / ratToFloat (extentOf s c)} got={lg / ratToFloat (extentOf s c)} pieces want={want.length} got={got.length}"
             else
               -- not only the vertices: the midpoint of every returned segment lies inside or on P (exact)
               match (got.flatMap pairs).find? (fun e => !insideClosedC c (pointAt e.1 e.2 (1/2))) with
